@@ -8,6 +8,7 @@ CONSTANTS
   MutClosingFirst = TRUE
   MutSharedCtx = FALSE
   MutEarlyReturn = FALSE
-INVARIANTS TypeOK NoAddDuringWait DropJustified InOrderOnce NothingLostSilently OutClosedAfterIn CloseComplete
+  MutCheckThenClose = FALSE
+INVARIANTS TypeOK NoDoubleSignal NoAddDuringWait DropJustified InOrderOnce NothingLostSilently OutClosedAfterIn CloseComplete
 PROPERTIES CloseReturns CancelCloses
 CHECK_DEADLOCK FALSE
